@@ -237,11 +237,11 @@ with parse_fields (n : nat) (ts : toks) (acc : list field) {struct n} : presult 
   match n with
   | O => out_of_fuel ts
   | S n =>
-      if is_op "}" ts then POk (ETable (rev acc)) (advance ts)
+      if is_op "}" ts then POk (ETable (rev' acc)) (advance ts)
       else
         do* f, ts1 <- parse_field n ts;
         if is_op "," ts1 || is_op ";" ts1 then parse_fields n (advance ts1) (f :: acc)
-        else if is_op "}" ts1 then POk (ETable (rev (f :: acc))) (advance ts1)
+        else if is_op "}" ts1 then POk (ETable (rev' (f :: acc))) (advance ts1)
         else err_near "'}' expected" ts1
   end
 
@@ -298,7 +298,7 @@ with parse_block (n : nat) (ts : toks) (acc : list stmt) {struct n} : presult bl
   match n with
   | O => out_of_fuel ts
   | S n =>
-      if block_end (peek ts) then POk (rev acc) ts
+      if block_end (peek ts) then POk (rev' acc) ts
       else
         do* s, ts1 <- parse_stmt n ts;
         parse_block n (if is_op ";" ts1 then advance ts1 else ts1) (s :: acc)
@@ -436,7 +436,7 @@ with parse_targets (n : nat) (ts : toks) (acc : list expr) {struct n} : presult 
       if is_op "," ts then
         do* e, ts1 <- parse_primary n (advance ts);
         parse_targets n ts1 (e :: acc)
-      else POk (rev acc) ts
+      else POk (rev' acc) ts
   end.
 
 Inductive parse_result :=
